@@ -285,15 +285,22 @@ func lidx(r *Report, p *Prog, pkgs []string) {
 					facts = env.FactsAt(b)
 					got = true
 				}
+				// a definite failure: the bound is out of range for EVERY length the operand can have on this path
+				// (a length set with one failing member only says that some other path condition must exclude it;
+				// that is decided semantically by the PRECONDITIONS rule of the protocol domain)
+				allFail := len(ls) > 0
 				for _, l := range ls {
 					need := l.Sub(bound)
 					if strict {
 						need = need.Add(linConst(-1))
 					}
-					if Decide(need, facts) == -1 {
-						n++
-						r.Viol("L-IDX", fmt.Sprintf("%s: %s %s of a value of length %s", p.FuncName(fn), what, bound.String(), l.String()), p.InstrPos(ins), "the operand can have length "+l.String()+" on this path and the bound "+bound.String()+" is then out of range: run-time panic")
+					if Decide(need, facts) != -1 {
+						allFail = false
 					}
+				}
+				if allFail {
+					n++
+					r.Viol("L-IDX", fmt.Sprintf("%s: %s %s of a value of length %s", p.FuncName(fn), what, bound.String(), strings.Join(linStrs(ls), " or ")), p.InstrPos(ins), "for every length the operand can have on this path the bound "+bound.String()+" is out of range: run-time panic")
 				}
 			}
 		}
